@@ -186,6 +186,85 @@ def check_call_sites(res, E):
         pass
     return n
 
+def check_cli_limit(res, E):
+    """--max-object-size on the command line: 0 disables the limit, any other value sets it, absent leaves the
+    configured one.  Config::apply_arg_matches handles ~40 options (2^40 paths), so the slice of its MIR from the
+    block that reads args.max_object_size to the block that reads the next option is explored."""
+    import copy
+    body = E.prog.find("src/config.rs", "Config", "apply_arg_matches").parse()
+    ga = mir.struct_fields("GlobalArgs", "src/config.rs")
+    cf = mir.struct_fields("Config", "src/config.rs")
+    ia, ic = ga.index("max_object_size"), cf.index("max_object_size")
+    start = end = local = None
+    for bb, blk in body.blocks.items():
+        for st_ in blk["stmts"]:
+            m = re.search(r"discriminant\(\((_\d+)\.%d: std::option::Option<u64>\)\)" % ia, st_)
+            if m and start is None:
+                start, local = bb, m.group(1)
+    if start is None:
+        m = None
+        for bb, blk in body.blocks.items():
+            for st_ in blk["stmts"]:
+                m = m or re.search(r"\((_\d+)\.%d: std::option::Option<u64>\)" % ia, st_)
+                if m and start is None:
+                    start, local = bb, m.group(1)
+    for bb, blk in body.blocks.items():
+        if blk.get("cleanup") or bb == start:
+            continue
+        if end is None and any(re.search(r"\(%s\.%d: " % (re.escape(local or "_0"), ia + 1), st_) for st_ in blk["stmts"]):
+            end = bb
+    if start is None or end is None:
+        res.inconclusive.append("apply_arg_matches: the blocks reading args.max_object_size / the next option were not found")
+        return
+    b2 = copy.copy(body)
+    b2.blocks = dict(body.blocks)
+    b2.blocks["bb0"] = {"cleanup": False, "stmts": ["goto -> %s;" % start]}
+    b2.blocks[end] = {"cleanup": False, "stmts": ["return;"]}
+    res.functions.append("routinator::config::Config::apply_arg_matches, slice %s..%s handling --max-object-size (MIR)" % (start, end))
+    selfp = mir.Opq("&mut Config", "self")
+    cd, cv = z3.Int("cfg_limit_disc"), z3.BitVec("cfg_limit", 64)
+    E.solver.add(z3.And(cd >= 0, cd <= 1))
+    base = (("o", selfp.id), "deref", ("f", ic))
+
+    def pre(E_, st, frame):
+        st.mem[base + ("disc",)] = cd
+        st.mem[base + (("v", "Some"), ("f", 0))] = cv
+    n = 0
+    for i, p in enumerate(E.explore(b2, max_visits=2, arg_values={"_1": {(): selfp}}, pre=pre, max_paths=500)):
+        if p.kind != "return":
+            if p.kind == "bound":
+                res.inconclusive.append("apply_arg_matches slice: path bound reached")
+            continue
+        n += 1
+        ad = av = None
+        for k, v in p.mem.items():
+            if isinstance(k, tuple) and k and k[0] == "F1:%s" % local and ("f", ia) in k:
+                if k[-1] == "disc":
+                    ad = v
+                elif k[-1] == ("f", 0):
+                    av = v
+        d1 = p.mem.get(base + ("disc",))
+        v1 = p.mem.get(base + (("v", "Some"), ("f", 0)))
+        if ad is None:
+            res.inconclusive.append("apply_arg_matches slice path %d: the argument's discriminant was not read" % i)
+            continue
+        av = av if av is not None else z3.BitVec("unread_arg_value", 64)
+        want_d = z3.If(ad == 0, cd, z3.If(av == 0, z3.IntVal(0), z3.IntVal(1)))
+        want_v = z3.If(ad == 0, cv, av)
+        ok = z3.And(d1 == want_d, z3.Implies(want_d == 1, v1 == want_v)) if v1 is not None else (d1 == want_d)
+        m = E.model(p.cond, z3.Not(ok))
+        if m is not None:
+            what = ("--max-object-size %s with a configured limit of %s leaves the limit at %s" % (
+                "absent" if m.eval(ad, True).as_long() == 0 else m.eval(av, True),
+                "none" if m.eval(cd, True).as_long() == 0 else m.eval(cv, True),
+                "none" if m.eval(d1, True).as_long() == 0 else (m.eval(v1, True) if v1 is not None else "?")))
+            fn = mprop.write_cex(res, "cli_limit_%d" % i, p, E, what, m)
+            res.violation("mir:cli-limit-mapping", "the command line's --max-object-size is not applied as documented (0 disables, n sets n): " + what, fn)
+            break
+    res.distinct += n
+    if n < 2:
+        res.inconclusive.append("vacuity: apply_arg_matches slice has %d returning paths" % n)
+
 
 def run(res, tier):
     E = mprop.engine(res)
@@ -193,6 +272,7 @@ def run(res, tier):
         mprop.source_hashes(["src/collector/rrdp/base.rs", "src/collector/rrdp/http.rs", "src/collector/rrdp/update.rs"]))
     check_reader(res, E)
     check_load_ta(res, E)
+    check_cli_limit(res, E)
     res.bounds += [
         "LimitedDataRead::read: ONE step from an arbitrary reader state (remaining budget None/Some(any u64)) with an "
         "arbitrary inner read result (Err, or Ok(any 64-bit count)); by induction on the step (budget = limit - "
